@@ -1055,18 +1055,20 @@ func (rn *runner) poisonStats() {
 //	group 1: the "restart" shard — restarted at some points of the history, its cache filled by
 //	         reads, alive across the following batches, behind the poisoning storage proxy — and a
 //	         fresh shard on a copy of ITS file: the same graph, the same codes, so every kind of
-//	         answer is compared exactly.
+//	         answer is compared exactly;
+//	group 2: the same for the "lru" shard (whole caches evicted and re-read now and then, on bbolt
+//	         directly: what a retained alias does there depends on bbolt's page recycling).
 func refsFor(sim *c04lib.Sim) ([][]shardRef, func()) {
 	refs := []shardRef{}
 	var closers []func()
-	var second []shardRef
+	var more [][]shardRef
 	for _, v := range sim.Variants {
 		ref := shardRef{name: v.Name, sh: v.Shard, own: v.Name != "live", nodes: c04lib.NodeIds(c04lib.DumpBucket(v.Shard, c04lib.PointsBucket))}
 		refs = append(refs, ref)
-		if v.Name == "restart" {
+		if v.Name == "restart" || v.Name == "lru" {
 			sh, done := sim.OpenCopyOf(v, -1)
 			closers = append(closers, done)
-			second = []shardRef{{name: v.Name, sh: v.Shard, nodes: ref.nodes}, {name: v.Name + "-cold", sh: sh, nodes: ref.nodes}}
+			more = append(more, []shardRef{{name: v.Name, sh: v.Shard, nodes: ref.nodes}, {name: v.Name + "-cold", sh: sh, nodes: ref.nodes}})
 		}
 	}
 	for _, cs := range []struct {
@@ -1082,10 +1084,7 @@ func refsFor(sim *c04lib.Sim) ([][]shardRef, func()) {
 		closers = append(closers, done)
 		refs = append(refs, shardRef{name: cs.name, sh: sh, nodes: refs[0].nodes})
 	}
-	groups := [][]shardRef{refs}
-	if second != nil {
-		groups = append(groups, second)
-	}
+	groups := append([][]shardRef{refs}, more...)
 	return groups, func() {
 		for _, c := range closers {
 			c()
@@ -1155,6 +1154,121 @@ func (rn *runner) shrink(sig string, q anyQuery, f *vh.OracleFailure) {
 	rn.ac = save
 }
 
+// ---------------------------------------------------------------- corpus: small scripted histories that run first
+
+type scripted struct {
+	name    string
+	ac      allCase
+	queries []anyQuery
+}
+
+func uid(i int) string { return uuid.UUID{0xc0, byte(i)}.String() }
+
+func insOf(prop string, from int, vecs ...[]float32) jBatch {
+	b := jBatch{Kind: "insert"}
+	for i, v := range vecs {
+		b.Changes = append(b.Changes, jChange{Id: uid(from + i), Vec: map[string][]float32{prop: v}})
+	}
+	return b
+}
+
+func delOf(ids ...int) jBatch {
+	b := jBatch{Kind: "delete"}
+	for _, i := range ids {
+		b.Changes = append(b.Changes, jChange{Id: uid(i)})
+	}
+	return b
+}
+
+// corpus: the minimal shapes of the state classes that random histories reach only sometimes —
+// a chain that is cut so that its last point loses every inbound edge; a quantiser whose trigger is
+// crossed inside a batch (per index kind and quantiser); a cache filled by reads after a restart and
+// used again; a batch whose commit fails. Each is answered for after every batch like any history.
+func corpus() []scripted {
+	flat := []c04lib.FlatCfg{{Prop: "v0", Metric: "euclidean", Dim: 2}, {Prop: "v1", Metric: "euclidean", Dim: 4, Quant: c04lib.QProduct, NumSub: 2, NumCent: 2, Trigger: 4}}
+	var out []scripted
+	// chain start - p0 - … - p5, one point per batch; p3 and p4 deleted together: p5 is a straggler
+	ch := allCase{Cfgs: flat, Shape: "chain"}
+	for k := 0; k < 6; k++ {
+		ch.Batches = append(ch.Batches, insOf("g", k, chainAt(vamanaCfg, k)))
+	}
+	ch.Batches = append(ch.Batches, delOf(3, 4), insOf("g", 6, chainAt(vamanaCfg, 6)), delOf(5, 6))
+	out = append(out, scripted{"chain-cut", ch, []anyQuery{
+		{Kind: "vamana", Prop: "g", Vec: []float32{0, 0}, Limit: 75}, {Kind: "vamana", Prop: "g", Vec: chainAt(vamanaCfg, 5), Limit: 1}, {Kind: "vamana", Prop: "g", Vec: chainAt(vamanaCfg, 6), Limit: 2}}})
+	// the trigger of the quantised Vamana index / of the flat product index is crossed inside the second batch
+	pts := [][]float32{{1, 0, 2, -1}, {-2, 1, 0, 1}, {0, -1, 1, 2}, {2, 2, -1, 0}, {-1, 0, -2, 1}, {1, 1, 1, -2}}
+	for _, gq := range []c04lib.FlatCfg{
+		{Prop: "gq", Metric: "euclidean", Dim: 4, Quant: c04lib.QBinLearned, BitMetric: "hamming", Trigger: 4},
+		{Prop: "gq", Metric: "euclidean", Dim: 4, Quant: c04lib.QProduct, NumSub: 2, NumCent: 2, Trigger: 4},
+	} {
+		gq := gq
+		for _, prop := range []string{"gq", "v1"} {
+			tr := allCase{Cfgs: flat, Gq: &gq, PoisonLive: prop == "v1"}
+			tr.Batches = []jBatch{insOf(prop, 0, pts[0], pts[1]), insOf(prop, 2, pts[2], pts[3]), insOf(prop, 4, pts[4]), delOf(1), insOf(prop, 5, pts[5])}
+			tr.Batches[1].Restart = true // the restarted shard reads what the training batch committed
+			kind := "vamana"
+			if prop == "v1" {
+				kind = "flat"
+			}
+			out = append(out, scripted{"train-in-batch:" + prop + ":" + gq.Eff().Quant.String(), tr, []anyQuery{
+				{Kind: kind, Prop: prop, Vec: []float32{1, 0, 1, 0}, Limit: 75}, {Kind: kind, Prop: prop, Vec: []float32{-1, 1, 0, 2}, Limit: 2}, {Kind: kind, Prop: prop, Vec: []float32{1, 0, 1, 0}, Limit: 3}}})
+		}
+	}
+	// a batch whose commit fails between two that succeed
+	ft := allCase{Cfgs: flat, PoisonLive: true}
+	bad := insOf("g", 3, []float32{2, 2}, []float32{-1, 2})
+	bad.Fault = true
+	good := bad
+	good.Fault = false
+	badDel := delOf(0, 3)
+	badDel.Fault = true
+	ft.Batches = []jBatch{insOf("g", 0, []float32{1, 0}, []float32{0, 1}, []float32{-2, -1}), bad, good, badDel, delOf(0, 3)}
+	out = append(out, scripted{"commit-fails", ft, []anyQuery{{Kind: "vamana", Prop: "g", Vec: []float32{1, 1}, Limit: 75}, {Kind: "id", Strs: []string{uid(0), uid(3)}}}})
+	return out
+}
+
+func (rn *runner) scripted(dir string, sc scripted) {
+	o := rn.o
+	defer func() {
+		if rec := recover(); rec != nil {
+			o.Fail("shard-panic", fmt.Sprintf("panic while running corpus case %s: %v", sc.name, rec), rn.replayOf(rn.curQ, "panic"))
+		}
+	}()
+	rn.ac = sc.ac
+	rn.ac.Batches = nil
+	sim := rn.ac.newSim(dir)
+	rn.sim = sim
+	defer sim.Close()
+	defer rn.poisonStats()
+	for _, jb := range sc.ac.Batches {
+		rn.ac.Batches = append(rn.ac.Batches, jb)
+		rn.curQ = nil
+		c04lib.Progress("corpus "+sc.name+": applying a "+jb.Kind+" batch (the last one of this case)", rn.replayOf(nil, "batch"))
+		if err := jb.applyTo(sim); err != nil {
+			o.Fail("batch-rejected:"+jb.Kind, fmt.Sprintf("corpus %s: a valid %s batch was rejected: %v", sc.name, jb.Kind, err), rn.replayOf(nil, "batch"))
+			return
+		}
+		o.Stats["corpus-batch"]++
+		groups, closeRefs := refsFor(sim)
+		// the queries twice: the second round is served from what the first one read
+		for round := 0; round < 2; round++ {
+			for _, q := range sc.queries {
+				q := q
+				rn.curQ = &q
+				c04lib.Progress("corpus "+sc.name+": answering a "+q.Kind+" query on every shard", rn.replayOf(&q, "query"))
+				before := len(o.Oracle)
+				for _, refs := range groups {
+					rn.compareAll(q, refs)
+				}
+				if len(o.Oracle) > before {
+					c04lib.SaveFailures(o.Oracle)
+				}
+			}
+		}
+		closeRefs()
+	}
+}
+
 func main() {
 	zerolog.SetGlobalLevel(zerolog.Disabled)
 	seed := flag.Uint64("seed", 1, "PRNG seed")
@@ -1197,6 +1311,13 @@ func main() {
 		{Prop: "gq", Metric: "euclidean", Dim: 2, Quant: c04lib.QBinFixed, Thr: 0, BitMetric: "hamming"},
 		{Prop: "gq", Metric: "cosine", Dim: 4, Quant: c04lib.QProduct, NumSub: 2, NumCent: 2, Trigger: 11},
 		{Prop: "gq", Metric: "dot", Dim: 2, Quant: c04lib.QBinLearned, BitMetric: "hamming", Trigger: 1000},
+	}
+	for i, sc := range corpus() {
+		rn := &runner{r: r, o: o, shrinks: 99}
+		cd := fmt.Sprintf("%s/c%d", tmp, i)
+		os.MkdirAll(cd, 0o755)
+		rn.scripted(cd, sc)
+		os.RemoveAll(cd)
 	}
 	for h := 0; h < *nhist; h++ {
 		pair := quants[h%len(quants)]
